@@ -908,7 +908,11 @@ def pcAllowed : List String :=
   ["close:closeCh", "lock", "snapshot:listeners", "unlock", "closeall:listeners", "call:deletePeer", "range:sessHub",
    "recvloop", "close:callback-chan", "closeall:quic-listeners", "return"]
 
-def estKeys (f : List SrcFlow.Ev) : List String := keys f
+/-- `f` holds of the statements of EVERY control-flow path of an establishment function on which the
+    Preparing→Ok swap is won (and there is such a path). -/
+def estAll (ps : List SrcPaths.Path) (f : List String → Bool) : Bool :=
+  let won := ps.filter fun p => p.any fun (e : SrcPaths.PEv) => e.kind == "cas" && e.out == "ok"
+  !won.isEmpty && won.all fun p => f (SrcPaths.keys p)
 
 /-- `Peer.Close` in its receive loop, one spawned `Close()` (of a session nobody has started to close)
     outstanding. -/
@@ -933,7 +937,8 @@ def pcRecvSt : PeerClose.PSt :=
     phase `hubbed`) and AFTER the reader is started in `ServeConn` and `Dial` (model: `hookOk` makes the
     session live with `hub = false`; `hubSet` is a later step). Moving `sessHub.set`, adding a `closeCh`
     check, stopping the range or the join on an error, or reordering the close changes a regenerated
-    fact and this theorem no longer checks. -/
+    fact and this theorem no longer checks. (5) is read off `Gen/Transitions`' control-flow paths: it holds on
+    EVERY path on which the swap is won. -/
 theorem C08_peer_close_order :
     Gen.peerClose_missing = [] ∧ Gen.transitions_missing = [] ∧
     Gen.peerclose_order.all pcAllowed.contains = true ∧
@@ -957,15 +962,17 @@ theorem C08_peer_close_order :
       (PeerClose.pstep { PeerClose.PSt.init with pc := pc } .dial).isSome &&
       (PeerClose.pstep { PeerClose.PSt.init with pc := pc, lis := false } .accept).isNone) = true ∧
     -- (5) where sessHub.set stands
-    before "stage:postAccept" "call:sessHub.set" (estKeys Gen.flow_peer_serveListener_accept) = true ∧
-    before "call:sessHub.set" "cas:statusOk<-statusPreparing" (estKeys Gen.flow_peer_serveListener_accept) = true ∧
-    before "cas:statusOk<-statusPreparing" "run:startReadAndHandle" (estKeys Gen.flow_peer_serveListener_accept) = true ∧
-    before "cas:statusOk<-statusPreparing" "spawn:startReadAndHandle" (estKeys Gen.flow_peer_ServeConn) = true ∧
-    before "spawn:startReadAndHandle" "call:sessHub.set" (estKeys Gen.flow_peer_ServeConn) = true ∧
-    count "call:sessHub.set" (estKeys Gen.flow_peer_ServeConn) = 1 ∧
-    before "cas:statusOk<-statusPreparing" "spawn:startReadAndHandle" (estKeys (mainFlow Gen.flow_peer_Dial)) = true ∧
-    before "spawn:startReadAndHandle" "call:sessHub.set" (estKeys (mainFlow Gen.flow_peer_Dial)) = true ∧
-    count "call:sessHub.set" (estKeys (mainFlow Gen.flow_peer_Dial)) = 1 ∧
+    Gen.tpaths_peer_serveListener_accept_missing = [] ∧ Gen.tpaths_peer_ServeConn_missing = [] ∧
+    Gen.tpaths_peer_Dial_missing = [] ∧
+    estAll Gen.tpaths_peer_serveListener_accept (fun k =>
+      before "stage:postAccept" "call:sessHub.set" k && before "call:sessHub.set" "cas:statusOk<-statusPreparing" k &&
+      before "cas:statusOk<-statusPreparing" "run:startReadAndHandle" k && count "call:sessHub.set" k == 1) = true ∧
+    estAll Gen.tpaths_peer_ServeConn (fun k =>
+      before "cas:statusOk<-statusPreparing" "spawn:startReadAndHandle" k &&
+      before "spawn:startReadAndHandle" "call:sessHub.set" k && count "call:sessHub.set" k == 1) = true ∧
+    estAll Gen.tpaths_peer_Dial (fun k =>
+      before "cas:statusOk<-statusPreparing" "spawn:startReadAndHandle" k &&
+      before "spawn:startReadAndHandle" "call:sessHub.set" k && count "call:sessHub.set" k == 1) = true ∧
     ((PeerClose.prun PeerClose.PSt.init [.accept, .hookOk 0]).map fun p => p.ss.map fun s => (s.ph, s.hub)) =
       some [(.hubbed, true)] ∧
     ((PeerClose.prun PeerClose.PSt.init [.serveConn, .hookOk 0, .dial, .hookOk 1]).map fun p =>
